@@ -13,6 +13,9 @@
    validates the records against TraceSensorChain.tla.
 3. Measurement clause: the reported az/el/range/range-rate against the independent geometry
    at the authoritative epoch, projected to an integer percentage of the tolerance.
+4. Noise statistics (statistical, driver-side): repeated observations of one target by sensors with
+   diagonal and with correlated (non-diagonal) configured covariance; the whitened errors must have
+   zero mean and unit covariance (noise_statistics()).
 """
 from __future__ import annotations
 
@@ -197,6 +200,19 @@ def sensor_set(ctx: Ctx, rng):
             if n % 4 == 2:
                 d["sensor"]["covariance"] = [[TINY if i == j else 0.0 for j in range(4)] for i in range(4)]
             add(d, "tiny" if n % 4 == 2 else "config", "sat_sensors+main_init radar")
+    # correlated (non-diagonal) measurement noise: SensorConfig.covariance is a full matrix.  Truth-only side
+    # (label "corr"), so that the simulator's own filters never depend on them.
+    nid = 135000
+    for t, rho in (("radar", 0.8), ("adv_radar", -0.6), ("optical", -0.7)):
+        g = by_type[t]
+        d = _variant(g, nid, f"{g['name']} corr{rho:+g}", background_observations=False)
+        cov = np.array(d["sensor"]["covariance"], float)
+        n = cov.shape[0]
+        for i in range(0, n - 1, 2):                    # (az, el) and (range, range rate) pairwise correlated
+            cov[i, i + 1] = cov[i + 1, i] = rho * math.sqrt(cov[i, i] * cov[i + 1, i + 1])
+        d["sensor"]["covariance"] = cov.tolist()
+        add(d, "corr", "main_init+correlated noise")
+        nid += 1
     return out, meta
 
 
@@ -350,7 +366,8 @@ class Runner:
         inputs["outcome"] = {"obs_targets": [o.target_id for o in obs_list],
                              "misses": [[mo.target_id, mo.reason] for mo in miss_list],
                              "boresight_after": b1.tolist(), "time_last_tasked_after": float(t1),
-                             "meas": meas_detail, "fov": list(P["fov"])}
+                             "meas": meas_detail, "meas_target": [ids.index(o.target_id) for o in obs_list if o.target_id in ids],
+                             "fov": list(P["fov"])}
         self.records.append(rec)
         self.inputs.append(inputs)
         # the state the sensor must be in now, by the driver's own bookkeeping
@@ -391,26 +408,31 @@ class Runner:
                 det[lab] = None
                 continue
             val = float(val)
+            if not math.isfinite(val):                         # NaN / inf is no measurement at all
+                worst = max(worst, 1e9)
+                det[lab] = [None, 1e9, 1.0, 0.0]
+                continue
             if lab == "azimuth_rad":
                 if L["coshor"] < G.SING_COS:
                     continue                                   # azimuth undefined at the zenith / nadir
-                err, tol = abs(G.wrap_pi(val - L["az"])), 1e-9 / L["coshor"] + 6.0 * sig
+                sgn, tol = G.wrap_pi(val - L["az"]), 1e-9 / L["coshor"] + 6.0 * sig
             elif lab == "elevation_rad":
-                err, tol = abs(val - L["el"]), 1e-9 + 6.0 * sig
+                sgn, tol = val - L["el"], 1e-9 + 6.0 * sig
             elif lab == "range_km":
-                err, tol = abs(val - L["rng"]), 1e-9 * max(1.0, L["rng"]) + 6.0 * sig
+                sgn, tol = val - L["rng"], 1e-9 * max(1.0, L["rng"]) + 6.0 * sig
             elif lab == "range_rate_km_p_sec":
-                err, tol = abs(val - L["rr"]), 1e-8 + 6.0 * sig
+                sgn, tol = val - L["rr"], 1e-8 + 6.0 * sig
             else:
                 raise tlc.MachineryError(f"unknown measurement label {lab}")
-            det[lab] = [val, err, tol]
+            err = abs(sgn)
+            det[lab] = [val, err, tol, sgn]
             worst = max(worst, err / tol)
         e = int(min(10 ** 6, math.ceil(100.0 * worst)))
         if e > 100:
             # diagnosis for the signature: which component, and does the report match one second off?
             det["worst"] = max((lab for lab in labels if det.get(lab)), key=lambda lab: det[lab][1] / det[lab][2])
             det["epoch_shift"] = None
-            for sh in (-1.0, 1.0):
+            for sh in (-1.0, 1.0) if all(det[lab][0] is not None for lab in labels if det.get(lab)) else ():
                 L2 = G.Site(sa.eci_state, auth + timedelta(seconds=sh), self.k).look(tgt.eci_state)
                 ref = {"azimuth_rad": L2["az"], "elevation_rad": L2["el"], "range_km": L2["rng"],
                        "range_rate_km_p_sec": L2["rr"]}
@@ -487,6 +509,95 @@ def sweep(run: Runner, rng, per_sensor: int, max_bg: int):
                          float(sa.time) - rng.choice((0.0, float(sa.dt_step), float(sa.time))))
             run.attempt(sa, tgt, est, bgs, f"sweep{mode}", prior)
         sa.updateInfo({"boresight": base[0], "time_last_tasked": type(s.time_last_tasked)(base[1])})
+
+
+NOISE_N = 300
+NOISE_BOUND = 5.5          # standard errors
+
+
+def noise_statistics(run: Runner, rng, want):
+    """(c) 'within the sensor's stated noise': NOISE_N repeated observations of one visible target per selected sensor;
+    the errors, whitened with the inverse symmetric square root of the configured covariance R, must have zero mean and
+    unit covariance within NOISE_BOUND standard errors (every attempt is also an ordinary record of the trace)."""
+    app = run.app
+    tids = list(app.target_agents.keys())
+    out = {}
+    for sa in app.sensor_agents.values():
+        m = run.meta[sa.simulation_id]
+        if not want(sa, m):
+            continue
+        s = sa.sensors
+        r = np.asarray(s.r_matrix, float)
+        ev, evec = np.linalg.eigh(r)
+        if ev.min() <= 0:
+            raise tlc.MachineryError(f"sensor {sa.name}: configured covariance is not positive definite")
+        w_inv = evec @ np.diag(ev ** -0.5) @ evec.T
+        labels = list(s.measurement.labels)
+        base = (np.array(s.boresight, float).copy(), float(s.time_last_tasked))
+        samples, bad_value = [], 0
+        # candidates: the scenario's own targets as they are; then (ground hosts) the first target moved to the middle of
+        # the masks at a ladder of ranges - restored afterwards, like the synthetic stratum does
+        cands = [(app.target_agents[tid], None) for tid in tids]
+        if run.host_kind(sa) == "ground":
+            kind0 = str(getattr(m["cfg"]["sensor"]["type"], "value", m["cfg"]["sensor"]["type"]))
+            P = G.sensor_params(s, kind0, "ground", m["cfg"]["sensor"])
+            site0, _ = run.site_of(sa)
+            a0, a1 = P["az_mask"]
+            az = (a0 + ((a1 - a0) % (2 * math.pi)) / 2.0) % (2 * math.pi)
+            el = (max(P["el_mask"][0], 0.0) + P["el_mask"][1]) / 2.0
+            for rk in (900.0, 2500.0, 8000.0, 20000.0, 38000.0):
+                if (P["min_range"] or 0.0) < rk < (P["max_range"] or 1e9):
+                    cands.append((app.target_agents[tids[0]], place(site0, az, el, rk, rand_vel(rng))))
+        for tgt, moved in cands:
+            saved_state = np.array(tgt.eci_state, float).copy()
+            if moved is not None:
+                tgt.eci_state = np.asarray(moved, float)
+            try:
+                site, _ = run.site_of(sa)
+                L = site.look(tgt.eci_state)
+                if L["coshor"] < 0.05:
+                    continue
+                prior = (np.asarray(L["sez"], float) / np.linalg.norm(L["sez"]), float(sa.time))     # already pointing at it
+                for n in range(NOISE_N):
+                    rec = run.attempt(sa, tgt, np.array(tgt.eci_state, float), [], "noise", prior if n == 0 else None)
+                    if rec["out"]["obsN"][0] != 1:
+                        break
+                    oc = run.inputs[-1]["outcome"]
+                    det = oc["meas"][oc["meas_target"].index(0)]
+                    if any(det.get(lab) is None or det[lab][0] is None for lab in labels):
+                        bad_value += 1
+                        continue
+                    samples.append([det[lab][3] for lab in labels])
+            finally:
+                tgt.eci_state = saved_state
+            if len(samples) + bad_value >= NOISE_N:
+                break
+            samples, bad_value = [], 0
+        sa.updateInfo({"boresight": base[0], "time_last_tasked": type(s.time_last_tasked)(base[1])})
+        kind = str(getattr(m["cfg"]["sensor"]["type"], "value", m["cfg"]["sensor"]["type"]))
+        if len(samples) + bad_value < NOISE_N:
+            out[sa.name] = {"samples": len(samples), "skipped": "no observable target among the scenario's targets"}
+            continue
+        info = {"samples": len(samples), "non_finite": bad_value, "noise": m["noise"]}
+        if len(samples) >= NOISE_N // 2:
+            w = np.asarray(samples, float) @ w_inv.T
+            n = len(w)
+            mean = w.mean(axis=0)
+            cov = (w.T @ w) / n
+            se_cov = np.sqrt((1.0 + np.eye(len(labels))) / n)
+            z_mean = float(np.abs(mean).max() * math.sqrt(n))
+            z_cov = float((np.abs(cov - np.eye(len(labels))) / se_cov).max())
+            info.update(z_mean=round(z_mean, 2), z_cov=round(z_cov, 2))
+            run.ctx.case(("noise-statistics", sa.name), nontrivial=True)
+            if z_mean > NOISE_BOUND or z_cov > NOISE_BOUND:
+                run.ctx.violation(f"noise-statistics:{kind}:{'correlated' if m['noise'] == 'corr' else 'diagonal'}",
+                                  f"{sa.name}: {n} measurement errors whitened with the configured covariance have mean "
+                                  f"{np.round(mean, 3).tolist()} and covariance {np.round(cov, 3).tolist()} "
+                                  f"(identity expected; {z_mean:.1f} / {z_cov:.1f} standard errors, bound {NOISE_BOUND})",
+                                  {"part": "noise-statistics", "sensor_cfg": m["cfg"], "labels": labels, "n": n,
+                                   "whitened_mean": mean.tolist(), "whitened_cov": cov.tolist()})
+        out[sa.name] = info
+    return out
 
 
 def place_sez(site: G.Site, sez_unit, rng_km, vel):
@@ -948,7 +1059,13 @@ def run(ctx: Ctx):
         "line of sight: the point of the sensor-target segment closest to the geocentre, if interior, is at least one "
         "Earth radius away (DESIGN.md 12.7); spherical Earth as documented",
         "measurement: |reported - independent| <= 1e-9 (azimuth 1e-9/cos el, range 1e-9 relative, range rate 1e-8) + 6 sigma "
-        "of the sensor's covariance; 'noise off' = covariance 1e-24 (attemptObservation hard-codes noisy=True)",
+        "of the sensor's covariance; 'noise off' = covariance 1e-24 (attemptObservation hard-codes noisy=True); a non-finite "
+        "reported value is never within tolerance",
+        f"noise statistics (driver-side, statistical, outside the TLC-validated clauses): {NOISE_N} repeated observations per "
+        "selected sensor (three sensors with correlated, non-diagonal covariance on the truth-only side + one configured sensor "
+        "per kind/origin); the errors whitened with the inverse symmetric square root of the CONFIGURED covariance must have "
+        f"mean 0 and covariance I within {NOISE_BOUND} standard errors (Gaussian standard errors sqrt(1/n), sqrt(2/n)); the numpy "
+        "generator is seeded, so the verdict is reproducible",
         "elevation masks are given in increasing order (all repository configurations); time-bias events not explored",
         "photometric formulas are re-evaluated as documented (wiring only), not validated against physics",
     ]
@@ -1006,8 +1123,20 @@ def drive(ctx: Ctx, rng):
             app_a.stepForward()
             _advance_truth_only(app_b, app_a)
             two_step(runs[1], rng)
-            for run in runs:
+            for ri, run in enumerate(runs):
                 sweep(run, rng, per_sensor=4 if ctx.quick else 12, max_bg=3)
+                if n == nsteps - 1 and (pi == 0 or not ctx.quick):
+                    seen: dict = {}
+
+                    def want(sa, m, ri=ri, seen=seen):
+                        if m["noise"] == "corr":
+                            return True
+                        k = (str(m["cfg"]["sensor"]["type"]), m["origin"])
+                        if ri == 0 and m["noise"] == "config" and seen.get(k, 0) < (1 if ctx.quick else 3):
+                            seen[k] = seen.get(k, 0) + 1
+                            return True
+                        return False
+                    run.stats["noise_statistics"] = noise_statistics(run, rng, want)
                 if n == nsteps - 1:
                     if ctx.quick:
                         synthetic(run, rng, 1, lambda i, pi=pi: i % len(plans) == pi)
